@@ -42,7 +42,12 @@ func (o *goSliceObject) setLength(rt *runtime, value Value) {
 		// No change needed.
 	case wantInt < o.value.Cap():
 		// Fits in current capacity.
-		o.value.SetLen(wantInt)
+		if o.value.CanSet() {
+			o.value.SetLen(wantInt)
+		} else {
+			// A slice passed by value is not addressable: re-slice our own header.
+			o.value = o.value.Slice(0, wantInt)
+		}
 	default:
 		// Needs expanding.
 		newSlice := reflect.MakeSlice(o.value.Type(), wantInt, wantInt)
